@@ -248,6 +248,25 @@ func runC19(args []string) {
 	for _, l := range schema.Layouts {
 		cells = append(cells, &c19Cell{tool: "bebopfmt", input: "valid:commented/" + l.Name, fault: "none", setup: format(schema.Print(commented, l))})
 	}
+	// consts between the other definitions: under the one-line layouts a const shares its line with
+	// what follows it (another const, an [opcode] struct, a readonly struct, an enum)
+	dense := &schema.Schema{Defs: []*schema.Def{
+		{Kind: "const", Name: "first", CType: "int32", Lit: "1"},
+		{Kind: "const", Name: "second", CType: "string", Lit: `"two; three"`},
+		{Kind: "struct", Name: "AfterConst", OpCode: &schema.OpCode{Int: 2, IntLit: "2"}, Fields: []schema.Field{sf("x", schema.Simple("int32"))}},
+		{Kind: "const", Name: "third", CType: "float64", Lit: "3.5"},
+		{Kind: "struct", Name: "Frozen", ReadOnly: true, Fields: []schema.Field{sf("y", schema.Simple("guid"))}},
+		{Kind: "const", Name: "fourth", CType: "bool", Lit: "true"},
+		{Kind: "enum", Name: "Small", Base: "uint8", Options: []schema.Option{{Name: "OptA", Lit: "1"}}},
+		{Kind: "const", Name: "fifth", CType: "uint64", Lit: "18446744073709551615"},
+		{Kind: "message", Name: "Last", Fields: []schema.Field{smf(1, "z", schema.Simple("Small"))}},
+		{Kind: "const", Name: "sixth", CType: "guid", Lit: `"e215a946-b26f-4567-a276-13136f0a1708"`},
+	}}
+	for _, l := range schema.Layouts {
+		cells = append(cells, &c19Cell{tool: "bebopfmt", input: "valid:consts-between-definitions/" + l.Name, fault: "none", setup: format(schema.Print(dense, l))})
+	}
+	cells = append(cells, &c19Cell{tool: "bebopfmt", input: "valid:everything-on-one-line", fault: "none",
+		setup: format("const int32 a = 1; const int32 b = 2; [opcode(2)] struct S { int32 x; } const string c = \"x\"; readonly struct R { int32 y; } enum E { A = 1; } const bool d = true; message M { 1 -> int32 z; }\n")})
 	invDir := filepath.Join(core.Repo(), "testdata", "invalid")
 	if ents, err := os.ReadDir(invDir); err == nil {
 		for _, e := range ents {
